@@ -46,9 +46,9 @@ pub fn classify_gap(ls: &LangSet, code: &str, toks: &[IdTok]) -> Gap {
             }
         } else if t.text.trim() == "." {
             return Gap::Hard;
-        } else if t.text.contains('.') || t.text.chars().any(|c| c.is_numeric()) {
-            amb = true; // "...", ".)", digit tokens
         }
+        // any other token without a letter (punctuation, "...", digit tokens) is transparent: the property's anchor
+        // names the breakers as "alphabetic non-linking word or a lone period"
     }
     if amb {
         Gap::Ambiguous
@@ -221,8 +221,8 @@ pub fn run(ctx: &Ctx) -> Outcome {
             }
         }
     });
-    let rule = "cases = grammar-noise token streams, each scanned at 9 base thresholds (0,1,3,5,10,25,inf,NaN,-1) plus value and value +/- 0.5 of its first numbers; universal laws on every stream: F(t) subset of F(0) as exact tuples, monotonicity over all ordered threshold pairs, t<=0 or NaN rewrites everything, every non-small number is reported; policy model (lower-case, hint-free streams): a small number is reported iff a neighbour of the same kind is linked through a soft gap; gaps are soft / hard / ambiguous (separator word, '...', digit tokens: not judged); non-trivial = stream with at least one recognised number";
-    finish(ctx, rep, rule, &["'is this a linking word / a separator word' is asked of the running library through the public trait methods", "gaps that contain the decimal-separator word, an ellipsis or digit tokens are not judged (DESIGN.md C09)"], vec![])
+    let rule = "cases = grammar-noise token streams, each scanned at 9 base thresholds (0,1,3,5,10,25,inf,NaN,-1) plus value and value +/- 0.5 of its first numbers; universal laws on every stream: F(t) subset of F(0) as exact tuples, monotonicity over all ordered threshold pairs, t<=0 or NaN rewrites everything, every non-small number is reported; policy model (lower-case, hint-free streams): a small number is reported iff a neighbour of the same kind is linked through a soft gap; gaps are soft (whitespace, hyphen, letter-free tokens other than a lone period, linking words, the conjunction) / hard (a lone period, a word that is not linking) / ambiguous (the separator word, a conjunction flagged not-a-number that the language does not list as linking: not judged); non-trivial = stream with at least one recognised number";
+    finish(ctx, rep, rule, &["'is this a linking word / a separator word' is asked of the running library through the public trait methods", "gaps that contain the decimal-separator word are not judged (DESIGN.md C09); letter-free tokens other than a lone period are transparent, as the property's anchor states"], vec![])
 }
 
 pub fn replay(case: &J) -> Vec<String> {
